@@ -40,11 +40,12 @@ structure Sig where
   num : Nat
   scaled : Nat
   hashes : List Nat
+  md5 : String := ""       -- `sig.md5sum()`: supplied by the harness (md5 itself is not modelled)
 deriving Repr, DecidableEq, Inhabited
 
-/-- `str(sig)` (the md5 prefix used when both name and filename are empty is not modelled) -/
+/-- `str(sig)` = `_display_name()`: the name, else the filename, else the first 8 characters of the md5sum -/
 def Sig.str (s : Sig) : String :=
-  if s.name ≠ "" then s.name else if s.filename ≠ "" then s.filename else "<md5>"
+  if s.name ≠ "" then s.name else if s.filename ≠ "" then s.filename else String.ofList (s.md5.toList.take 8)
 
 /-- `max_hash` of the sketch `minhash.downsample(scaled=S)` builds: Python computes
     `max_hash`, the constructor turns it into a scaled value, Rust turns that into `max_hash` -/
@@ -217,6 +218,12 @@ def Db.signatures (db : Db) : Except Err (List (Nat × String × List Nat)) :=
 
 /-! ### JSON -/
 
+/-- `save_to_json`: a protein / dayhoff / hp database (moltype ≠ 0) stores `ksize * 3` -/
+def jsonSaveKsize (moltype ksize : Nat) : Nat := if moltype ≠ 0 then ksize * 3 else ksize
+
+/-- `load`: `ksize = int(ksize / 3)` for a non-DNA moltype (after `assert ksize % 3 == 0`) -/
+def jsonLoadKsize (moltype stored : Nat) : Nat := if moltype ≠ 0 then stored / 3 else stored
+
 /-- what `load` makes of one stored lineage: a dict rank ↦ name (later pairs win), read out
     along `taxlist()` with `""` for absent ranks -/
 def jsonLineage (l : Lineage) : Lineage :=
@@ -226,7 +233,8 @@ def jsonLineage (l : Lineage) : Lineage :=
 /-- `load(save_to_json(db))` for a DNA database -/
 def Db.jsonRoundTrip (db : Db) : Db :=
   let l2l := db.lidToLineage.map (fun p => (p.1, jsonLineage p.2))
-  { ksize := db.ksize, scaled := db.scaled, moltype := db.moltype,
+  { ksize := jsonLoadKsize db.moltype (jsonSaveKsize db.moltype db.ksize), scaled := db.scaled,
+    moltype := db.moltype,
     lidToLineage := l2l.foldl (fun d p => set d p.1 p.2) [],
     lineageToLid := l2l.foldl (fun d p => set d p.2 p.1) [],
     hashvalToIdx := db.hashvalToIdx,
@@ -356,8 +364,17 @@ def Db.sqlAssignments (db : Db) : List (String × Lineage) :=
     | none => a
     | some lid => set a p.1 ((get? db.lidToLineage lid).getD [])) ([] : List (String × Lineage))
 
-/-- `LCA_Database.load(db.save(path, format="sql"))` -/
-def Db.toSql (db : Db) : Except Err SqlDb :=
+/-- `_build_index` when `save_to_sql` recorded the identifiers (`sourmash_lca_idents`): the lineage is
+    looked up under the identifier the signature was inserted with, whatever its name -/
+def sqlIndexStepI (tax : List (String × List Nat)) (st : BuildSt) (ri : (Nat × String × List Nat) × String) :
+    BuildSt :=
+  sqlAssign { st with identToIdx := set st.identToIdx ri.2 ri.1.1 } ri.1.1 (taxLook tax ri.2)
+
+def initSt : BuildSt := { identToIdx := [], nextLid := 0, idxToLid := [], lineageToLid := [], lidToLineage := [] }
+
+/-- `LCA_Database.load(db.save(path, format="sql"))`; `stored`: the identifiers are recorded in the file
+    (`Gen.sqlStoresIdents`, read from the source by the translator) -/
+def Db.toSqlWith (stored : Bool) (db : Db) : Except Err SqlDb :=
   match db.signatures with
   | .error e => .error e
   | .ok sigs =>
@@ -369,16 +386,33 @@ def Db.toSql (db : Db) : Except Err SqlDb :=
       -- SqliteIndex.insert gives consecutive ids starting at 1 (an empty sketch gets a manifest row and no
       -- hash rows); hashes pass a MinHash at the stored scaled
       let rows := (numberFrom 1 sigs).map (fun (q : Nat × Nat × String × List Nat) => (q.1, q.2.2.1, q.2.2.2))
-      let st := sqlBuildIndex tax rows
+      let st := if stored then
+          -- idents = [self._idx_to_ident[idx] for idx in self._signatures]
+          let m := match db.idxToIdent with | .ok m => m | .error _ => []
+          let idents := sigs.map (fun g => (get? m g.1).getD "")
+          (rows.zip idents).foldl (sqlIndexStepI tax) initSt
+        else sqlBuildIndex tax rows
       .ok { ksize := db.ksize, moltype := db.moltype, scaled := db.scaled, storedScaled := db.scaled,
             rows := rows, identToIdx := st.identToIdx, idxToLid := st.idxToLid,
             lidToLineage := st.lidToLineage }
 
+def Db.toSql (db : Db) : Except Err SqlDb := db.toSqlWith Gen.sqlStoresIdents
+
 def SqlDb.len (s : SqlDb) : Nat := s.rows.length
 
-/-- `_SqliteIndexHashvalToIndex.get(h)`: the sketch ids holding `h` (SQL row order) -/
-def SqlDb.idxsOf (s : SqlDb) (h : Nat) : List Nat :=
+/-- is `h` part of the sketches at the current `self.scaled`?  (`honoured`: `downsample_scaled` is
+    honoured by the queries, `Gen.sqlDownHonoured`) -/
+def SqlDb.visibleWith (honoured : Bool) (s : SqlDb) (h : Nat) : Bool := !honoured || decide (h ≤ mhR s.scaled)
+
+/-- every sketch id holding `h` (SQL row order) -/
+def SqlDb.idxsOfAll (s : SqlDb) (h : Nat) : List Nat :=
   s.rows.filterMap (fun r => if r.2.2.contains h then some r.1 else none)
+
+def SqlDb.idxsOfWith (honoured : Bool) (s : SqlDb) (h : Nat) : List Nat :=
+  if s.visibleWith honoured h then s.idxsOfAll h else []
+
+/-- `_SqliteIndexHashvalToIndex.get(h)` -/
+def SqlDb.idxsOf (s : SqlDb) (h : Nat) : List Nat := s.idxsOfWith Gen.sqlDownHonoured h
 
 def SqlDb.getLineageAssignments (s : SqlDb) (h : Nat) (minNum : Nat := 0) : Except Err (List Lineage) :=
   let idxs := s.idxsOf h
@@ -406,17 +440,32 @@ def SqlDb.getIdentifiers (s : SqlDb) (h : Nat) : Except Err (List (Option String
 def convertHashTo (h : Nat) : Int := if h > MAX_SQLITE_INT then (h : Int) - (2 ^ 64 : Int) else (h : Int)
 def convertHashFrom (x : Int) : Nat := if x < 0 then (x + (2 ^ 64 : Int)).toNat else x.toNat
 
-/-- `hashvals`: `SELECT DISTINCT hashval`, each value through `convert_hash_from` -/
-def SqlDb.hashvals (s : SqlDb) : List Nat :=
+/-- every stored hash value: `SELECT DISTINCT hashval`, each through `convert_hash_from` -/
+def SqlDb.hashvalsAll (s : SqlDb) : List Nat :=
   let all := s.rows.foldl (fun acc r => updateSet acc r.2.2) ([] : List Nat)
   all.map (fun h => convertHashFrom (convertHashTo h))
+
+def SqlDb.hashvalsWith (honoured : Bool) (s : SqlDb) : List Nat :=
+  s.hashvalsAll.filter (s.visibleWith honoured)
+
+/-- `hashvals` -/
+def SqlDb.hashvals (s : SqlDb) : List Nat := s.hashvalsWith Gen.sqlDownHonoured
 
 /-- `downsample_scaled`: only the attribute changes -/
 def SqlDb.downsampleScaled (s : SqlDb) (S : Nat) : Except Err SqlDb :=
   if S < s.scaled then .error .value else .ok { s with scaled := S }
 
-/-- `signatures()`: every manifest row, hashes through a `MinHash` at the stored scaled -/
-def SqlDb.signatures (s : SqlDb) : List (Nat × String × List Nat) :=
+/-- every manifest row, hashes through a `MinHash` at the stored scaled -/
+def SqlDb.signaturesStored (s : SqlDb) : List (Nat × String × List Nat) :=
   s.rows.map (fun r => (r.1, r.2.1, sortAsc (r.2.2.filter (· ≤ mhR s.storedScaled))))
+
+def SqlDb.signaturesWith (honoured : Bool) (s : SqlDb) : List (Nat × String × List Nat) :=
+  if honoured && decide (s.storedScaled < s.scaled) then
+    -- `ss.minhash.downsample(scaled=self.scaled)`
+    s.signaturesStored.map (fun r => (r.1, r.2.1, r.2.2.filter (· ≤ insThreshold s.scaled)))
+  else s.signaturesStored
+
+/-- `signatures()` -/
+def SqlDb.signatures (s : SqlDb) : List (Nat × String × List Nat) := s.signaturesWith Gen.sqlDownHonoured
 
 end Sm.Lca
